@@ -650,6 +650,20 @@ impl Python {
             })
             .map(|name| (python_enum_member_name(&name), name))
             .collect::<Vec<(String, String)>>();
+        // Distinct wire names can yield the same member name ("xZ" and "x-Z" are both X_Z);
+        // an Enum cannot have two members of one name.
+        let all_enum_variants_name = {
+            let mut seen = HashSet::new();
+            all_enum_variants_name
+                .into_iter()
+                .map(|(mut member, wire)| {
+                    while !seen.insert(member.clone()) {
+                        member.push('_');
+                    }
+                    (member, wire)
+                })
+                .collect::<Vec<(String, String)>>()
+        };
         let enum_type_class_name = format!("{}Types", shared.id.renamed);
         self.add_import("enum".to_string(), "Enum".to_string());
         // write "types" class: a union of all the enum variants
